@@ -49,6 +49,9 @@ func c05Worlds(tier string) []explore.Case {
 	// a dependent body whose nested block has extensions of its own, under DynamicBlocks; the same
 	// nested block schema is reachable from a second block type
 	picks = append(picks, pick{"S:dep-nested-ext", 0, ""})
+	// reference completion on the line a block-local declaration ends on (the walk over the collected targets visits
+	// that declaration), next to a query that resolves the same declaration
+	picks = append(picks, pick{"S:ext-CFDS", -1, c05SelfText})
 	var out []explore.Case
 	for _, p := range picks {
 		e := find(p.id)
@@ -65,7 +68,10 @@ func c05Worlds(tier string) []explore.Case {
 }
 
 // c05Anchors: for some worlds the two cursors are placed right behind these texts.
+const c05SelfText = "b \"n\" {\n  ya = 1\n  xa = \n}\nb \"m\" {\n  xa = self.xa\n}\n"
+
 var c05Anchors = map[string][]string{
+	c05SelfText: {"  xa = ", "self.xa"},
 	"attr = list()\nblk {\n  attr = \n}\nattr2 = ma\n": {"attr = list(", "attr2 = ma"},
 }
 
